@@ -137,8 +137,21 @@ var scenarios = []scenario{
 				return
 			}
 			r := w.NRPC()
-			for i := 0; i < 4 && w.Last().App[t] != "pt"; i++ {
-				w.Step(sys.Stim{K: "point", T: t}) // past conn.created, if armed
+			metaOut := func() bool {
+				for _, wr := range w.CP.Writes() {
+					for _, f := range wr.Frames {
+						if f.Kind == 7 && wr.Done && !wr.Failed {
+							if md := string(f.Data); strings.Contains(md, "M2") {
+								return true
+							}
+						}
+					}
+				}
+				return false
+			}
+			// go on until the metadata packet is out and the call is parked right after it (conn.meta.written)
+			for i := 0; i < 6 && !(metaOut() && w.Last().App[t] == "pt"); i++ {
+				w.Step(sys.Stim{K: "point", T: t})
 				w.Flow(6, nil)
 			}
 			w.Step(sys.Stim{K: "cancel", R: r})
